@@ -179,6 +179,77 @@ theorem foldl_istep_refuses_only_escapes (cs : List Bytes) (s base : List Bytes)
         refine ⟨c :: a, b, by rw [e]; rfl, ?_⟩
         simpa [List.foldl_cons, rstep, h1, h2, List.append_assoc] using hn
 
+/-! ### toolchain ids (`dist/cache.rs` `valid_archive_id` + `make_lru_key_path`, fix 718dc21) -/
+
+def isHexByte (b : UInt8) : Bool := (48 ≤ b && b ≤ 57) || (97 ≤ b && b ≤ 102) || (65 ≤ b && b ≤ 70)
+
+/-- `valid_archive_id`: at least two bytes, all ASCII hex digits -/
+def validId (id : Bytes) : Bool := 2 ≤ id.length && id.all isHexByte
+
+/-- `make_lru_key_path(id)` below the cache root, as text: `root/<id[0]>/<id[1]>/<id>` -/
+def keyPath (root id : Bytes) : Bytes := root ++ [slash] ++ id.take 1 ++ [slash] ++ (id.drop 1).take 1 ++ [slash] ++ id
+
+theorem splitSlash_noslash (s : Bytes) (h : ∀ b ∈ s, b ≠ slash) : splitSlash s = [s] := by
+  induction s with
+  | nil => rfl
+  | cons x xs ih =>
+    rw [splitSlash_cons]
+    have hx : (x == slash) = false := by simpa using h x (by simp)
+    simp only [hx]
+    rw [ih (fun b hb => h b (by simp [hb]))]
+    simp
+
+theorem hex_ne (b : UInt8) (h : isHexByte b = true) : b ≠ slash ∧ b ≠ dot := by
+  unfold isHexByte at h
+  constructor <;> (intro e; subst e; revert h; decide)
+
+theorem rstep_normal (st : List Bytes) (c : Bytes) (hne : c ≠ []) (hd : c ≠ [dot]) (hdd : c ≠ [dot, dot]) : rstep st c = st ++ [c] := by
+  unfold rstep
+  have h1 : c.isEmpty = false := by cases c <;> simp_all
+  have h2 : (c == [dot]) = false := by simpa using hd
+  have h3 : (c == [dot, dot]) = false := by simpa using hdd
+  simp [h1, h2, h3]
+
+/-- `toolchain_path_confined`: for every id `valid_archive_id` accepts, the path the toolchain cache uses resolves to exactly three
+    names below the cache root — no id can name a file outside it, and the slicing cannot fail -/
+theorem keyPath_confined (root id : Bytes) (hv : validId id = true) :
+    resolve (keyPath root id) = resolve root ++ [id.take 1, (id.drop 1).take 1, id] := by
+  unfold validId at hv
+  simp only [Bool.and_eq_true, decide_eq_true_eq] at hv
+  obtain ⟨hlen, hall⟩ := hv
+  have hhex : ∀ b ∈ id, isHexByte b = true := List.all_eq_true.mp hall
+  have hns : ∀ (s : Bytes), (∀ b ∈ s, b ∈ id) → ∀ b ∈ s, b ≠ slash := fun s hs b hb => (hex_ne b (hhex b (hs b hb))).1
+  -- the three components
+  have h1 : ∀ b ∈ id.take 1, b ∈ id := fun b hb => List.mem_of_mem_take hb
+  have h2 : ∀ b ∈ (id.drop 1).take 1, b ∈ id := fun b hb => List.mem_of_mem_drop (List.mem_of_mem_take hb)
+  have norm : ∀ (c : Bytes), c ≠ [] → (∀ b ∈ c, b ∈ id) → c ≠ [] ∧ c ≠ [dot] ∧ c ≠ [dot, dot] := by
+    intro c hne hc
+    refine ⟨hne, ?_, ?_⟩
+    · intro e; have := (hex_ne dot (hhex dot (hc dot (by rw [e]; simp)))).2; exact this rfl
+    · intro e; have := (hex_ne dot (hhex dot (hc dot (by rw [e]; simp)))).2; exact this rfl
+  have t1 : id.take 1 ≠ [] := by cases id with
+    | nil => simp at hlen
+    | cons _ _ => simp
+  have t2 : (id.drop 1).take 1 ≠ [] := by
+    cases id with
+    | nil => simp at hlen
+    | cons a r => cases r with
+      | nil => simp at hlen
+      | cons _ _ => simp
+  have t3 : id ≠ [] := by intro e; rw [e] at hlen; simp at hlen
+  obtain ⟨a1, a2, a3⟩ := norm _ t1 h1
+  obtain ⟨b1, b2, b3⟩ := norm _ t2 h2
+  obtain ⟨c1, c2, c3⟩ := norm _ t3 (fun b hb => hb)
+  unfold keyPath
+  rw [resolve_eq, resolve_eq]
+  have e : root ++ [slash] ++ id.take 1 ++ [slash] ++ (id.drop 1).take 1 ++ [slash] ++ id
+      = root ++ slash :: (id.take 1 ++ slash :: ((id.drop 1).take 1 ++ slash :: id)) := by simp
+  rw [e, splitSlash_append, splitSlash_append, splitSlash_append,
+      splitSlash_noslash _ (hns _ h1), splitSlash_noslash _ (hns _ h2), splitSlash_noslash _ (hns _ (fun b hb => hb))]
+  simp only [List.foldl_append, List.foldl_cons, List.foldl_nil]
+  rw [rstep_normal _ _ a1 a2 a3, rstep_normal _ _ b1 b2 b3, rstep_normal _ _ c1 c2 c3]
+  simp
+
 /-- the stripped remainder of a rooted suffix never has a root again -/
 theorem trimLeftFuel_noRoot (fuel : Nat) (s : Bytes) (h : s.length < fuel) : hasRoot (trimLeftFuel fuel s) = false := by
   induction fuel generalizing s with
